@@ -288,3 +288,18 @@ def gen_wf(rng, v=None, nframes=None, ports=None, end='rand', metadata='rand', g
         r.gecko = (actual, rb(rng, nb * 512))
     r.extra = extra
     return r
+
+
+def hx(b): return b.hex() if b else '-'
+
+def to_case(r, opts='-'):
+    """fields of the model runner's `emit` mode for the abstract replay r"""
+    gecko = '-' if r.gecko is None else '%d:%s' % (r.gecko[0], r.gecko[1].hex())
+    end = '-' if not r.end else ('s:' if r.end == 'single' else 'd:') + r.end_blk.hex()
+    meta = '-' if r.metadata is None else (ubj(r.metadata) + b'}').hex()
+    fs = []
+    for f in r.frames:
+        chars = ','.join('%d.%d.%s.%s' % (p, fol, hx(pre), hx(post)) for (p, fol, pre, post) in f.chars) or '-'
+        items = ','.join(hx(i) for i in f.items) or '-'
+        fs.append('%d/%s/%s/%s/%s' % (f.fid, hx(f.fstart), hx(f.fend), chars, items))
+    return [r.start_blk.hex(), gecko, end, meta, ';'.join(fs) or '-', opts]
